@@ -38,6 +38,108 @@ def concat_ps_lemma(ctx, gs):
 
 
 @register
+class ConcatenateColumns(Family):
+    """np.concatenate(..., axis=1 / -1): the list handed to the constructor holds, for an ARBITRARY iteration k of `zip(*ragged_arrays)`, the row
+    concat(row k of operand 0, row k of operand 1, ...): L0(k) + L1(k) (+ L2(k)) cells, the cells of operand i's row k at offset L0(k) + .. + L(i-1)(k),
+    in operand order; every array iterated in lock-step has one entry per row of its operand (so zip stops after min n_i = n rows - the property speaks of
+    operands with corresponding rows, n_i == n); the result is built by the first operand's class from exactly that list; operands are not written.
+    The real generator of RaggedArray.__iter__ and the real comprehension run; the constructor from a list of rows is a callee (C01 stand-in)."""
+    name = "arrayfunctions.concatenate[axis=1]"
+    qualname = "npstructures.arrayfunctions:concatenate"
+    serves = ["C08", "C19"]
+    assumed = ["CPython iteration protocol: zip pairs the k-th elements and stops with the shortest; comprehensions carry no state between iterations, so one "
+               "arbitrary iteration stands for all (same assumption as RaggedArray.__iter__/tolist)", "numpy.concatenate of 1-D arrays",
+               "callee: RaggedArray(list of rows) builds exactly those rows (constructor from a row list: bounded stand-in of C01)",
+               "the operand list has 2 or 3 entries (unrolled)"]
+
+    def kinds(self):
+        return ["2[axis=1]", "2[axis=-1]", "3[axis=1]"]
+
+    def extra_functions(self):
+        return ["RaggedArray.__iter__"]
+
+    def run(self, ctx, kind):
+        from npstructures import RaggedArray
+        from npstructures.arrayfunctions import concatenate
+        m = int(kind[0])
+        axis = -1 if "axis=-1" in kind else 1
+        gs = [sym_ragged(ctx, f"a{i}", kind="elem") for i in range(m)]
+        n = gs[0].n
+        for g in gs[1:]:
+            ctx.assume(g.n == n)
+        k = z3.Int("k")
+        ctx.assume(z3.And(0 <= k, k < n))
+        ctx.add_index(k, k + 1)
+        made = []
+
+        class Recording(RaggedArray):
+            def __init__(self_, data, *a, **kw):
+                made.append((data, a, kw))
+        gs[0].ra.__class__ = Recording
+        gi = {"k": k, "arrays": []}
+        ctx.ghost["generic_iteration"] = gi
+        try:
+            out = concatenate([g.ra for g in gs], axis=axis)
+        finally:
+            del ctx.ghost["generic_iteration"]
+            gs[0].ra.__class__ = RaggedArray
+        ok = (type(out) is Recording and len(made) == 1 and not made[0][1] and not made[0][2] and isinstance(made[0][0], list) and len(made[0][0]) == 1
+              and len(gi["arrays"]) >= m)
+        ctx.prove("post.built by the first operand's class from one list holding one joined row per iteration", z3.BoolVal(ok))
+        if not ok:
+            return
+        ctx.prove("post.exactly n iterations: every array iterated in lock-step has one entry per row",
+                  z3.And(*[z3.And(z3.BoolVal(a.ndim == 1), dim_term(a.shape_[0]) == n) for a in gi["arrays"]]))
+        row = made[0][0][0]
+        offs = [z3.IntVal(0)]
+        for g in gs:
+            offs.append(z3.simplify(offs[-1] + g.L(k)))
+        pool = [k, k + 1, n]
+        ctx.prove("post.joined row k has L0(k) + L1(k) + .. cells", z3.And(z3.BoolVal(isinstance(row, SymArr) and row.ndim == 1), dim_term(row.shape_[0]) == offs[-1]), pool=pool)
+        c = z3.Int("c")
+        ctx.skolem(z3.And(0 <= c, c < offs[-1]))
+        exp = None
+        for i in range(m - 1, -1, -1):
+            v = gs[i].D.fn(gs[i].S(k) + c - offs[i])
+            exp = v if exp is None else z3.If(c < offs[i + 1], v, exp)
+        ctx.prove("post.joined row k: the cells of operand 0's row k, then operand 1's row k, .. in operand order", row.get(c) == exp,
+                  pool=pool + [c] + [c - o for o in offs[:-1]])
+        ctx.prove("post.operands not modified", z3.BoolVal(all(g.D.buf.writes == 0 for g in gs)))
+
+    def concretise(self, kind, model, ghost):
+        return {"operands": [[2, 0, 3], [1, 2, 0], [0, 0, 2]][:int(kind[0])]}
+
+    def concrete(self, case):
+        from npstructures import RaggedArray
+        ras, rowss, v = [], [], 1
+        for ls in case["operands"]:
+            rr = []
+            for l in ls:
+                rr.append(list(range(v, v + l)))
+                v += l
+            rowss.append(rr)
+            ras.append(RaggedArray(np.array([x for r in rr for x in r], dtype=np.int64), ls))
+        exp = [[x for rr in rowss for x in rr[r]] for r in range(len(rowss[0]))]
+        for axis in (1, -1):
+            try:
+                got = np.concatenate(ras, axis=axis).tolist()
+            except Exception as e:
+                return {"msg": f"np.concatenate(axis={axis}) of row lengths {case['operands']} raised {type(e).__name__}: {e}", "sig": "raised:concatenate-columns"}
+            if got != exp:
+                return {"msg": f"np.concatenate(axis={axis}) of row lengths {case['operands']}: {got}, expected {exp}", "sig": "wrong:concatenate-columns"}
+
+    def bounded_cases(self, tier, seed):
+        import itertools
+        from ..bounded.common import length_vectors
+        lvs = [ls for ls in length_vectors(3, 2) if len(ls) in (1, 3)]
+        for a, b in itertools.product(lvs, repeat=2):
+            if len(a) == len(b):
+                yield {"operands": [a, b]}
+        for a in lvs[:6]:
+            yield {"operands": [a, a[::-1], a]}
+
+
+@register
 class ConcatenateRows(Family):
     name = "arrayfunctions.concatenate[axis=0]"
     qualname = "npstructures.arrayfunctions:concatenate"
